@@ -247,8 +247,34 @@ def run(ctx, cases=None):
     res = sysrun.run(ctx, [ctx.seed * 100000 + 500 + i for i in range(n)], 16, ['mon_c06'], do_corr='pipeline',
                      model_exe=_pipeline_exe(ctx))
     system_gate(ctx, res)
+    hs = api_body_histories()
+    ctx.count('api_body_histories', len(hs))
+    sysrun.run(ctx, [], 0, ['mon_c06'], do_corr=False, replay_history=hs)
     from lib import authoropts
     authoropts.check(ctx, relevant=['bypass_build_status'])     # "bypassed by ... per-author setting"
+
+
+def api_body_histories():
+    """The evaluation of a pull request can also be asked through the API (POST /api/pull-requests/<id>, open to every
+    authenticated user).  Whatever JSON body comes with that request, a pull request whose integration tips are not
+    green stays out of the queue: bodies naming the settings the gate reads, for every non-green status."""
+    from lib import histories
+    out = []
+    src = 'bugfix/TEST-1'
+    for mode in ('queue', 'noqueue'):
+        cfg = {'layout': [[4, 3, None, []], [5, 1, None, []]], 'use_queue': mode == 'queue', 'skip_queue': False,
+               'no_octopus': False, 'peers': 0, 'leaders': 0, 'need_author': False, 'build_key': 'pre-merge',
+               'always_prs': True, 'always_branches': True, 'cmd_line_options': []}
+        for st in ('FAILED', 'INPROGRESS', 'NOTSTARTED', 'STOPPED'):
+            ev = [{'e': 'create_pr', 'src': src, 'dst': 'development/4.3', 'label': 'c1'}, {'e': 'job_pr', 'pr': 1},
+                  {'e': 'build', 'ref': src, 'state': st}, {'e': 'build', 'ref': 'w/5.1/' + src, 'state': 'SUCCESSFUL'},
+                  {'e': 'build', 'ref': src, 'state': 'SUCCESSFUL', 'key': 'nightly'},
+                  {'e': 'build', 'ref': 'w/5.1/' + src, 'state': 'SUCCESSFUL', 'key': 'nightly'},
+                  {'e': 'job_pr', 'pr': 1}]
+            for body in histories.API_BODIES:
+                ev.append({'e': 'job_api', 'kind': 'eval_pr', 'args': {'pr_id': 1}, 'body': body, 'user': 'author'})
+            out.append({'cfg': cfg, 'events': ev, 'family': 'c06-api-body'})
+    return out
 
 
 def _pipeline_exe(ctx):
